@@ -99,6 +99,12 @@ try:
             det[pid]["tail"] = r.stdout[-800:]
     meta["checks"] = det
     meta["quiet"] = all(d["quiet"] for d in det.values())
+    if a.tier == "quick" and os.path.exists(prev):
+        # keep what deeper tiers recorded earlier
+        pm = json.load(open(prev))
+        for k in pm:
+            if k.startswith("checks_") or k.startswith("quiet_"):
+                meta.setdefault(k, pm[k])
     if a.tier != "quick" and os.path.exists(prev):
         # a deeper tier is recorded next to the quick-tier record, which stays
         pm = json.load(open(prev))
